@@ -654,6 +654,27 @@ package tsm1
 //@   ensures only_a_block_entirely_before_is_less: same_key && result ==> a[i].maxTime < a[j].minTime
 //@   ensures blocks_entirely_before_are_less: same_key && a[i].minTime <= a[i].maxTime && a[i].maxTime < a[j].minTime ==> result
 
+// ---- C10: a batch of series is deleted with the time range its series were selected with ----
+// DeleteSeriesRangeWithPredicate collects series keys and deletes them batch-wise. The predicate may choose a
+// different range per series: a key may only join a batch whose keys were all selected with the same range, and the
+// batch is flushed with exactly that range - otherwise a series loses points outside its range or keeps selected ones.
+//@ func (*Engine).DeleteSeriesRangeWithPredicate
+//@   props C10
+//@   nosafety
+//@   dynamic_calls_modify_nothing
+//@   ghost batch_is_empty bool = true
+//@   ghost batch_min int = 0
+//@   ghost batch_max int = 0
+//@   loop 1 invariant batch_range: batch_is_empty == (len(batch) == 0) && (batch_is_empty || (batch_min == min && batch_max == max))
+//@   loop 1 invariant no_predicate_means_the_full_range: predicate == nil ==> newMin == min && newMax == max
+//@   at after Engine.deleteSeriesRange#1: ghost batch_is_empty = true
+//@   call append#1 requires joins_only_a_batch_of_its_own_range: batch_is_empty || (batch_min == newMin && batch_max == newMax)
+//@   at after append#1: ghost batch_min = newMin
+//@   at after append#1: ghost batch_max = newMax
+//@   at after append#1: ghost batch_is_empty = false
+//@   call Engine.deleteSeriesRange#1 requires flushed_with_the_range_of_its_keys: batch_is_empty || (min == batch_min && max == batch_max)
+//@   call Engine.deleteSeriesRange#2 requires flushed_with_the_range_of_its_keys: batch_is_empty || (min == batch_min && max == batch_max)
+
 // ---- C01: after a restart the WAL continues with segment ids above every segment on disk ----
 // Open takes the id of the newest segment file as the current id - also when that file is empty and is removed
 // (a crash right after a roll-over leaves such a file behind the closed segments that still hold data). Starting
